@@ -75,6 +75,8 @@ IsOci == g.kind = "oci"
 \* A stray blob file (dropped under blobs/ by the environment, leaf nodes only)
 \* makes the node present for Exists / Fetch / Push / Tag: the layout is keyed by digest.
 Present == content \cup stray
+\* file store: a name (title annotation) belongs to the first blob pushed under it
+NameTaken(n, P) == g.kind = "file" /\ g.names[n] # "" /\ \E m \in P : m # n /\ g.names[m] = g.names[n]
 \* the expectation as a function of an explicit state (C content, T tags, Ix indexed, S stray), so that the
 \* concurrent-tail judgement can run every order of a set of operations through it
 ExpectOn(C, T, Ix, S, r) ==
@@ -82,7 +84,9 @@ ExpectOn(C, T, Ix, S, r) ==
       St(res, c, t, ix, s) == [res |-> res, content |-> c, tags |-> t, indexed |-> ix, stray |-> s]
       Same(res) == St(res, C, T, Ix, S)
   IN
-  CASE r.op = "pushbad" ->     \* bytes that do not match the descriptor: refused, nothing changes
+  CASE r.op \in {"push", "pushbad"} /\ NameTaken(r.n, P) ->      \* file store: another blob already holds this name
+         Same("dupname")
+    [] r.op = "pushbad" ->     \* bytes that do not match the descriptor: refused, nothing changes
          IF r.n \in P THEN Same(IF g.kind = "file" /\ g.names[r.n] # "" THEN "dupname" ELSE "exists") ELSE Same("refused")
     [] r.op = "push" ->
          IF r.n \in P THEN Same(IF g.kind = "file" /\ g.names[r.n] # "" THEN "dupname" ELSE "exists")
